@@ -49,6 +49,7 @@ def gen_case(tier):
         "start": st.one_of(st.sampled_from([0, 1, 5, H - 2, H - 1]), st.integers(0, H - 5)),
         "rows": st.sampled_from([0, 0, 1, 2, 3, -1]),
         "cli": st.booleans(), "cli_file": st.booleans(),
+        "paranoia_pos": st.sampled_from(["front", "front", "after-command", "end", "abbreviated-front", "abbreviated-end"]),
     })
 
 
@@ -232,10 +233,21 @@ def check_case(case, ctx):
                             "same path is not JSON any more (%d characters)" % (what, len(text)))
         if case["cli"]:
             to_file = bool(case.get("cli_file"))
-            argv = (["--paranoia", "--account", str(account), "--interval", str(interval[0]), str(interval[1])]
+            # the flag is written where the documentation puts it, or elsewhere on the line / abbreviated: the command may
+            # refuse such a line (not judged), but whenever it accepts a line that asks for paranoia the output is filtered
+            ppos = case.get("paranoia_pos", "front")
+            flag = "--par" if ppos.startswith("abbreviated") else "--paranoia"
+            argv = (["--account", str(account), "--interval", str(interval[0]), str(interval[1])]
                     + (["--file", "cli-out.json"] if to_file else [])
-                    + (["--testnet"] if testnet and case["source"] != "xprv" else []) + argv_src)
+                    + (["--testnet"] if testnet and case["source"] != "xprv" else []))
+            if ppos in ("front", "abbreviated-front"):
+                argv = [flag] + argv + argv_src
+            elif ppos == "after-command":
+                argv = argv + argv_src[:1] + [flag] + argv_src[1:]
+            else:
+                argv = argv + argv_src + [flag]
             r = cli.run_main(argv, cwd=tmp)
+            ctx.count("cli[%s]:%s" % (ppos, "accepted" if r["status"] == 0 else "refused"))
             if r["status"] == 0:
                 try:
                     if to_file:
@@ -277,6 +289,62 @@ def check_case(case, ctx):
         judge_identity("C15/identity", "%s, %s" % (what, name), out, U)
 
 
+# ---------------------------------------------------------------------------------------------- export beside other output
+def gen_export_threads(tier):
+    from vlib import threads as T
+    return st.fixed_dictionaries({
+        "seed": st.binary(min_size=64, max_size=64), "testnet": st.booleans(), "rows": st.sampled_from([1, 2]),
+        "others": st.lists(st.sampled_from(["pprint-unfiltered", "export-unfiltered", "json-unfiltered", "pprint-filtered"]),
+                           min_size=1, max_size=2),
+        "plan": T.plans(max_run=12)})
+
+
+def check_export_threads(case, ctx):
+    """One thread saves the FILTERED record to a file while other threads print / save / render the UNFILTERED record of
+    the same wallet (deterministic scheduler).  The filtered file must hold exactly the filtered data."""
+    from vlib import threads as T
+    PW, M = _impl()
+    try:
+        rm = R.master(case["seed"])
+    except R.Invalid:
+        return
+    testnet = case["testnet"]
+    w = PW.from_bip39_seed_bytes(case["seed"], testnet)
+    interval = (0, case["rows"])
+    U = w.generate(0, interval)
+    F = M.paranoia_mode(U)
+    secrets, scalars = secret_set({"source": "seed", "seed": case["seed"]}, rm, U, testnet, 0, list(interval))
+    tmp = tempfile.mkdtemp(prefix="c15t-")
+    try:
+        fp = os.path.join(tmp, "filtered.json")
+        thunks = [lambda: w.export_wallet(fp, 4, F)]
+        for j, kind in enumerate(case["others"]):
+            if kind == "pprint-unfiltered":
+                thunks.append(lambda: w.pprint(U))
+            elif kind == "pprint-filtered":
+                thunks.append(lambda: w.pprint(F))
+            elif kind == "json-unfiltered":
+                thunks.append(lambda: w.json(U))
+            else:
+                thunks.append(lambda j=j: w.export_wallet(os.path.join(tmp, "full-%d.json" % j), 4, U))
+        with patch.cli([]) as io:
+            results, errors = T.run_scheduled(case["plan"], thunks, T.library_files("paper_wallet", "base_wallet", "__main__", "helper"), ctx)
+        if errors:
+            raise Violation("C15/export-threads/raised", "threads raised %r" % (errors,))
+        with open(fp) as f:
+            text = f.read()
+        what = "filtered export_wallet() while other threads do %r with the unfiltered record" % (case["others"],)
+        try:
+            out = json.loads(text)
+        except ValueError:
+            raise Violation("C15/export-threads/not-json", "%s: the file is not one JSON document (%d characters): %r"
+                            % (what, len(text), text[:120]))
+        judge_output("C15/leak", what, out, U, secrets, scalars, ctx)
+        judge_identity("C15/identity", what, out, U)
+    finally:
+        shutil.rmtree(tmp, ignore_errors=True)
+
+
 def nt_case(case):
     return case["rows"] >= 1 and case["pw"] != ""
 
@@ -290,10 +358,16 @@ def clauses():
     return [
         Clause("filtered-output", check_case,
                "every dict key and string leaf at every depth of the filtered output (returned dict, json(), pprint() "
-               "stdout, export_wallet() file, CLI --paranoia stdout): not a WIF / extended private key / valid sentence / "
+               "stdout, export_wallet() file, CLI with the paranoia flag in any position it is accepted in): not a WIF / extended private key / valid sentence / "
                "known scalar; no reference-computed secret occurs; BIP44/49/84 path, pub and the first three row columns "
                "identical to the unfiltered record and nothing else present; non-trivial = >= 1 row and non-empty "
                "passphrase; distinct by seed/account/interval",
                gen=gen_case, nontrivial=nt_case, classes=classes_case,
                n={"quick": 320, "thorough": 6000}, shards={"quick": 16, "thorough": 16}),
+        Clause("export-threads", check_export_threads,
+               "one thread saves the filtered record with export_wallet() while 1..2 other threads pprint / export / "
+               "render the UNFILTERED record of the same wallet, under the deterministic line-granularity scheduler; the "
+               "filtered file must be one JSON document holding exactly the filtered public data and no secret; "
+               "non-trivial = >= 2 thread switches (measured)",
+               gen=gen_export_threads, n={"quick": 200, "thorough": 6000}, shards={"quick": 16, "thorough": 16}),
     ]
